@@ -223,7 +223,7 @@ def decorators(repo, res):
     raises = [n for n in ast.walk(nf) if isinstance(n, ast.Raise)]
     ok = len(calls_f) == 1 and norm(calls_f[0]) == "f(*args, **kwargs)" and all(is_raise_of(r, "TypeError") for r in raises) and raises and all(r.lineno < calls_f[0].lineno for r in raises)
     last = [s for s in nf.body if not (isinstance(s, ast.Expr) and isinstance(s.value, ast.Constant))][-1]
-    ok &= isinstance(last, ast.Return) and last.value is calls_f[0]
+    ok = ok and isinstance(last, ast.Return) and last.value is calls_f[0]
     res.check(ok, "accepts:check-before-call", acc.where(nf), "every TypeError precedes the single call f(*args, **kwargs) whose result is returned unchanged", rid=r4)
     loop = [n for n in nf.body if isinstance(n, ast.For)]
     ok = len(loop) == 1 and norm(loop[0].iter) == "chain(zip(names_of_args, args), kwargs.items())"
@@ -241,7 +241,7 @@ def decorators(repo, res):
     rets = [n for n in ast.walk(nf) if isinstance(n, ast.Return)]
     ok = len(calls_f) == 1 and norm(calls_f[0]) == "f(*args, **kwargs)" and len(rets) == 1 and norm(rets[0].value) == "results"
     asg = [n for n in ast.walk(nf) if isinstance(n, ast.Assign) and norm(n.targets[0]) == "results"]
-    ok &= len(asg) == 1 and asg[0].value is calls_f[0]
+    ok = ok and len(asg) == 1 and asg[0].value is calls_f[0]
     res.check(ok, "returns:result-unchanged", ret.where(nf), "the wrapped function is called once with the caller's arguments and its own result object is returned", rid=r4)
     loop = [n for n in nf.body if isinstance(n, ast.For)]
     ok = len(loop) == 1 and norm(loop[0].iter) == "zip(result_tuple, r_units)"
